@@ -15,7 +15,7 @@ def job(spec, tier, jobs):
         if r.returncode != 0:
             return [(patch, "*", "DOES NOT APPLY", r.stderr[-200:])]
         out = []
-        env = dict(os.environ, TPMSTREAM_SRC=f"{d}/src", VERIF_OUT=f"{d}/out", VERIF_JOBS=str(jobs))
+        env = dict(os.environ, TPMSTREAM_SRC=f"{d}/src", VERIF_OUT=f"{d}/out", VERIF_JOBS=str(jobs), VERIF_STOP_AT_FIRST=os.environ.get("VERIF_STOP_AT_FIRST", "1"))
         for c in checks.split(","):
             p = subprocess.run(["./check", c, "--tier", tier], cwd=VERIF, env=env, capture_output=True, text=True)
             lines = p.stdout.splitlines()
